@@ -474,6 +474,90 @@ func (g *Gen) inclCase(i int) *Case {
 	return c
 }
 
+// lateCase: a vector that is empty for whole batches (its series start late, end early or have a
+// gap of more than ten steps) next to scalar operands that change from step to step (time(),
+// scalar(v)): operators that pair the vector stream with scalar streams batch by batch must keep
+// them aligned across batches in which one side has nothing.
+func (g *Gen) lateCase(i int) *Case {
+	g.prof = "func"
+	g.maxSeries = 8
+	c := g.Case(i)
+	g.prof = "late"
+	c.ID = fmt.Sprintf("late-%d", i)
+	c.Profile = "late"
+	c.Step = g.pickI(15000, 30000, 60000)
+	steps := int64(22 + g.r.Intn(25))
+	c.End = c.Start + (steps-1)*c.Step
+	g.step = c.Step
+	v := g.pick("m", "m", "n", `m{a!="x"}`, "abs(m)", "-m")
+	sc := func() string {
+		return g.pick("time()", "time() / 2", "scalar(n)", "scalar(m)", "time() - 1.7e9", "scalar(n) + time()", "scalar(count(n))")
+	}
+	switch g.r.Intn(8) {
+	case 0:
+		c.Query = fmt.Sprintf("clamp_min(%s, %s)", v, sc())
+	case 1:
+		c.Query = fmt.Sprintf("clamp_max(%s, %s)", v, sc())
+	case 2:
+		c.Query = fmt.Sprintf("clamp(%s, %s, %s)", v, sc(), sc())
+	case 3:
+		c.Query = fmt.Sprintf("%s %s %s", v, g.pick("+", "-", "*", ">", "< bool", "/"), sc())
+	case 4:
+		c.Query = fmt.Sprintf("%s %s %s", sc(), g.pick("+", "-", "*", ">", "<= bool", "%"), v)
+	case 5:
+		c.Query = fmt.Sprintf("quantile(%s, %s)", g.pick("scalar(n) / 100", "time() / 1e10", "scalar(m) / 50"), v)
+	case 6:
+		c.Query = fmt.Sprintf("histogram_quantile(%s, h_bucket)", g.pick("scalar(n) / 100", "time() / 1e10"))
+	default:
+		c.Query = fmt.Sprintf("%s(%s, %s) %s %s", g.pick("clamp_min", "clamp_max"), v, sc(), g.pick("+", "*", "-"), sc())
+	}
+	c.Series = nil
+	g.dataset(c, extractRanges(c.Query), strings.Contains(c.Query, "h_bucket"))
+	// carve the emptiness into the metric of the vector operand (m or h_bucket): everything before
+	// a cut, after a cut, or between two cuts that are more than ten steps apart
+	lo := c.Start + (10+int64(g.r.Intn(8)))*c.Step - c.Step/2
+	hi := c.End + c.Step
+	mode := g.r.Intn(3)
+	if mode == 1 {
+		lo, hi = c.Start-3600000, c.Start+(int64(2+g.r.Intn(8)))*c.Step
+	}
+	gapLo, gapHi := int64(0), int64(0)
+	if mode == 2 {
+		lo = c.Start - 3600000
+		gapLo = c.Start + int64(1+g.r.Intn(6))*c.Step
+		gapHi = gapLo + (11+int64(g.r.Intn(8)))*c.Step
+	}
+	target := "m"
+	if strings.Contains(c.Query, "h_bucket") {
+		target = "h_bucket"
+	} else if strings.HasPrefix(v, "n") {
+		target = "n"
+	}
+	for k := range c.Series {
+		if len(c.Series[k].Labels) == 0 || c.Series[k].Labels[0][0] != "__name__" && c.Series[k].Labels[len(c.Series[k].Labels)-1][0] != "__name__" {
+			// the name label sorts among the others; look it up
+		}
+		name := ""
+		for _, l := range c.Series[k].Labels {
+			if l[0] == "__name__" {
+				name = l[1]
+			}
+		}
+		if name != target {
+			continue
+		}
+		var kept []SampleJ
+		for _, sm := range c.Series[k].Samples {
+			if sm.T < lo || sm.T > hi || (gapHi > 0 && sm.T > gapLo && sm.T < gapHi) {
+				continue
+			}
+			kept = append(kept, sm)
+		}
+		c.Series[k].Samples = kept
+	}
+	return c
+}
+
 // dfuncCase enumerates every PromQL function of the parser's table (natively supported or not -
 // the distributed optimizer sees them all) with arguments of the declared types, in several
 // positions of a larger expression. Used with the plan-level `distplan` oracle only.
